@@ -9,38 +9,38 @@ TRUST = ("trusted: go/packages + go/ssa (x/tools v0.29.0) front end, the gosym S
 claimed = {
  "C01": ("head-level framing obligation: every POST head built from ≤3 (quick) / ≤4 (thorough) framing fields (Content-Length with ≤2/≤3 arbitrary bytes, Transfer-Encoding variants, Connection: keep-alive) on HTTP/1.1 and 1.0 is either rejected or leaves ConnectionClose() set when RFC 9112 calls its framing ambiguous, and otherwise yields the RFC's body length; plus chunked bodies through the real serve loop: with a hole of ≤3/≤4 arbitrary bytes in the chunk-size line, after the chunk data or after the last-chunk size, whatever is dispatched is what an independent RFC 9112 §7.1 reader frames, the next request starts at that boundary, and a malformed chunked body is never followed by another request",
          "bounds: see text; for the head-level harness the serve loop's close-on-ConnectionClose is assumed; the server option matrix is outside", "§0 C01"),
- "C02": ("the real ServeConn loop is interpreted on a scripted connection: for every combination of body framing (fixed 31 B / fixed 9031 B / chunked), Expect handling, StreamRequestBody, segmenting and handler read amount, the dispatched requests are /first then /second or the connection closes — request-shaped body bytes are never dispatched",
-         "bounds: the finite input grammar listed in the evidence (no free symbolic bytes: every branch of the real loop is still decided on the symbolic executor); one known finding excluded (streamed long body left unread)", "§0 C02"),
- "C03": ("handler programs (5 statuses × 6 body-building calls incl. streams of known/unknown size and stream writers, ≤3/≤6 arbitrary body bytes, GET or HEAD) through the real ServeConn loop; the wire bytes split under an independent RFC 9112 reader into exactly the responses built: status, body (none for HEAD/204/304), and the next response starts where this one ends",
-         "bounds as stated; headers/cookies/compression/trailers/size-mismatching streams/HTTP/1.0 outside", "§0 C03"),
+ "C02": ('the real ServeConn loop on a scripted connection: for every combination of body framing (fixed 31 B / fixed 9031 B / chunked), Expect handling (none, accepted, ContinueHandler or ExpectHandler accepting or rejecting), StreamRequestBody, ReduceMemoryUsage, 1-3 segment delivery and handler read amount, the dispatched requests are /first then /second or the connection closes, and every final response on the wire answers one of those two requests — request-shaped body bytes are neither dispatched nor answered; plus a second connection of the same Server after a chunked upload that broke off inside a chunk',
+         'bounds: the finite input grammar listed in the evidence (no free symbolic bytes: every branch of the real loop is still decided on the symbolic executor)', "§0 C02"),
+ "C03": ('handler programs through the real ServeConn loop: 5 statuses × 6 body-building calls (streams read in bulk, byte-wise, or returning data together with io.EOF), two calls in a row, Content-Length / Transfer-Encoding / Connection set by hand, streams one byte shorter or longer than declared, TimeoutError responses for GET / HEAD / HTTP-1.0, with ≤2/≤5 arbitrary body bytes; the wire splits under an independent RFC 9112 reader (which rejects Content-Length together with Transfer-Encoding) into exactly the responses built, the next response starts where this one ends, and a mismatching stream never puts more than its declared size on the wire and closes',
+         'bounds as stated; other headers/cookies (C05/C06), compression (C22), trailers outside', "§0 C03"),
  "C04": ("sequential HostClient calls against a scripted server whose responses carry arbitrary tag bytes: every successful call returns exactly the body the server produced for the request written at that position of that connection (also when a streamed body is closed early and its tail spells a complete response), no request is written to a connection after an exchange that said close, and such connections are closed",
          "sequential histories of 2/3 calls; concurrency, PipelineClient and timeouts outside", "§0 C04"),
- "C05": ("one setter call with arbitrary name (≤2 bytes) and value (≤2 quick / ≤3 thorough bytes) per path over 20 request/response setters; the serialised head is re-split by an independent scanner: CR/LF only as CRLF, no early blank line, names among those set, bounded line count",
-         "bounds: one call per header, name/value lengths as stated; trailers, proxy CONNECT target and URI setters on Request outside; one known finding excluded (non-token header names)", "§0 C05"),
- "C06": ("request-cookie half: up to 2 SetCookie calls with arbitrary key (≤1/≤2 bytes) and value (≤2 bytes); the serialised Cookie value is parsed by a second RequestHeader: never more cookies than set; cookie-octet keys/values round-trip",
-         "bounds as stated; response Set-Cookie attribute round trip outside; one known finding excluded (';' in a request cookie)", "§0 C06"),
- "C07": ("server-side limits on the real ServeConn loop: with MaxRequestBodySize = L symbolic in [1,6]/[1,8] and a non-streamed POST of n ≤ 8/9 arbitrary bytes (fixed-length, one chunk, two chunks), n ≤ L is dispatched with exactly its body and the next request follows, n > L is never dispatched, gets a 4xx response and the connection closes, and the handler never holds more than L bytes; a head longer than ReadBufferSize (64) gets 431 and a close",
-         "bounds as stated; client limits, *WithLimit helpers, multipart, streamed bodies, large limits outside", "§0 C07"),
- "C08": ("all byte strings of length ≤3 (quick) / ≤5 (thorough) through Args.ParseBytes, Cookie.ParseBytes, URI.Parse, ParseByteRange, RequestHeader.Read, ResponseHeader.Read, VisitHeaderParams and request-cookie parsing: no panic / out-of-range / budget overrun on any path, plus no over-read on templated request heads with arbitrary continuations",
-         "bounds as stated; bodies, trailers, multipart, limits and long inputs outside", "§0 C08"),
- "C09": ("differential: the same templated request head (5 templates × hole ≤2/≤3 arbitrary bytes × 4 blank-line spellings) followed by two arbitrary continuations (≤2 bytes each) is read by the real RequestHeader.Read twice; acceptance, fields and consumed length must agree",
-         "bounds as stated; response heads outside; one known finding excluded (LF CRLF blank line)", "§0 C09"),
- "C10": ("server half on the real ServeConn loop: ≤2/≤3 requests from 5 kinds × DisableKeepalive × MaxRequestsPerConn × handler SetConnectionClose position; each response carries Connection: close exactly when it is the last one served, and whenever the statement requires it; HTTP/1.0 keep-alive echoed",
-         "bounds: finite request grammar; CloseOnShutdown and the client's reuse decision outside", "§0 C10"),
- "C11": ("two requests on one connection through the real ServeConn loop: after a request 1 of 4 kinds carrying symbolic bytes everywhere and a handler that dirties every part of RequestCtx, handler 2 sees exactly request 2 (method, URI, host, headers, cookies, body, query/post args, no user values) and a fresh default response",
-         "bounds: the stated two-request grammar × ReduceMemoryUsage × StreamRequestBody × segmenting; other histories outside", "§0 C11"),
- "C12": ("per-IP admission over every sequential open/close history of ≤5/≤7 steps on two addresses with MaxConnsPerIP ∈ {1,2} (real wrapPerIPConn / perIPConn.Close / counter map), and tryAcquireConcurrency as a one-step contract from an arbitrary counter",
-         "sequential histories only; concurrent accepts and the serve loop's own pairing outside", "§0 C12"),
- "C13": ("the real workerPool (Start, Serve, workerFunc, release, clean, Stop) runs on the engine's cooperative scheduler with virtual time: 3/4 connections, MaxWorkersCount ∈ {1,2}, schedule choice points in the worker function and after each Serve, handlers returning nil or errHijacked; served exactly once iff accepted, bound respected, idle retirement, nothing left after Stop",
-         "bounded schedules at blocking points/Gosched/explicit choice points; instruction-level preemption outside", "§0 C13"),
- "C14": ("ConnState sequences of the real ServeConn loop for 0..2/0..3 requests from 5 kinds, optional hijack, ReduceMemoryUsage on/off: regular-language check and Active-after-a-byte",
-         "bounds: finite connection grammar; two known findings excluded (ServeConn never reports StateNew; first StateActive precedes the first byte)", "§0 C14"),
- "C17": ("the real ServeConn loop with a hijacking handler on a scripted connection: the response is complete (or absent with HijackSetNoResponse) before the hijack handler runs, the handler reads exactly the ≤3/≤6 arbitrary trailing bytes in order whether they were buffered with the request, arrive later or are split, and the connection is closed after the handler unless KeepHijackedConns",
+ "C05": ('one setter call with arbitrary name (≤2 bytes) and value (≤2 quick / ≤3 thorough bytes) per path over 22 request/response setters (incl. trailers), header-name normalisation on and off; the serialised head is re-split by an independent scanner: CR/LF only as CRLF, no early blank line, names among those set, bounded line count',
+         'bounds: one call per header, name/value lengths as stated; proxy CONNECT target and URI setters on Request outside; one known finding excluded (non-token header names; CR/LF inside names stay in play)', "§0 C05"),
+ "C06": ("request cookies: up to 2 SetCookie calls with arbitrary key/value bytes, parsed by a fresh or a reused server-side RequestHeader (both must agree, never more cookies than set, cookie-octets round-trip); response cookies: arbitrary key/value plus a domain or a path (incl. percent-escapes through SetPath/SetPathBytes) and 8 flag combinations, serialised through ResponseHeader.SetCookie and parsed by Cookie.ParseBytes: the number of ';' equals the attributes set, no Secure/HttpOnly/SameSite/Partitioned/Domain/Path/Max-Age that was not set, cookie-octets round-trip",
+         "bounds as stated; Expires (time formatting) outside; one known finding excluded (';' in a request cookie)", "§0 C06"),
+ "C07": ('server-side limits on the real ServeConn loop: with MaxRequestBodySize = L symbolic in [1,6]/[1,8] and a non-streamed POST of n ≤ 8/9 arbitrary bytes (fixed-length, one chunk, two chunks), n ≤ L is dispatched with exactly its body and the next request follows, n > L is never dispatched, gets a 4xx response and the connection closes; a Content-Length or chunk size announcing more than L (limit from MaxRequestBodySize or a per-request HeaderReceived limit, with or without Expect: 100-continue) makes the server give up without reading the data segment; a head longer than ReadBufferSize (64) gets 431 and a close',
+         'bounds as stated; client limits, *WithLimit helpers, multipart, streamed bodies, MiB-scale limits outside', "§0 C07"),
+ "C08": ('all byte strings of length ≤3 (quick) / ≤5 (thorough) through Args.ParseBytes, Cookie.ParseBytes, URI.Parse, ParseByteRange, RequestHeader.Read, ResponseHeader.Read, VisitHeaderParams and request-cookie parsing: no panic / out-of-range / runaway loop on any path; chunk-size lines of 14..17 arbitrary hex digits; chunked-with-trailer and fixed-length messages delivered in two reads split anywhere in their last 14 bytes or in the head: the reader terminates with the same body and trailer and consumes nothing beyond the message; no over-read on templated request heads',
+         "bounds as stated; multipart and long inputs outside; non-termination is reported when the engine's step budget is exhausted and the native replay does not finish either", "§0 C08"),
+ "C09": ('differential: the same templated request or response head (5+5 templates × hole ≤2/≤3 arbitrary bytes × blank-line spellings) followed by two arbitrary continuations (≤2 bytes each) is read twice by the real header readers; acceptance, fields and consumed length must agree; and a complete head delivered in 1-3 reads cut inside its last five bytes is answered without asking the connection for more',
+         'bounds as stated; one known finding excluded (a blank line not spelled CRLF CRLF is only recognised when CRLF CRLF follows)', "§0 C09"),
+ "C10": ('server half on the real ServeConn loop: ≤2/≤3 requests from 5 kinds × DisableKeepalive × MaxRequestsPerConn 0..2 × ReduceMemoryUsage × handler SetConnectionClose / TimeoutError position; each response carries Connection: close exactly when it is the last one served, and whenever the statement requires it; HTTP/1.0 keep-alive echoed; client half: sequential HostClient calls never write a request to a connection after an exchange that said close, and close it',
+         'bounds: finite request grammar; CloseOnShutdown outside', "§0 C10"),
+ "C11": ('non-interference through the real ServeConn loop: request 2 (4 shapes with symbolic bytes) served after a request 1 of 7 kinds (incl. a chunked upload that breaks off, a malformed head, rejected expectations) and a handler that dirties every part of RequestCtx — on the same or an earlier connection of the same Server — is observed (method, URI, headers in order, cookies, body, query/post args, user values, default response) and answered exactly as when it is served alone on a fresh Server, and is dispatched whenever it is dispatched alone',
+         'bounds: the stated grammar × ReduceMemoryUsage × StreamRequestBody × Expect callbacks; timeouts, hijacks, multipart outside', "§0 C11"),
+ "C12": ('per-IP admission over every sequential open/close history of ≤5/≤7 steps on two addresses with MaxConnsPerIP ∈ {1,2}; tryAcquireConcurrency as a one-step contract; and ≤3/≤4 connections served one after the other through the real ServeConn (plain, hijacking, malformed, silent) with Concurrency ∈ {1,2}: none rejected, concurrency and open counters back at zero',
+         'sequential histories only; concurrent accepts and the listener path outside; one known finding excluded (GetOpenConnectionsCount reports -1 without a listener)', "§0 C12"),
+ "C13": ("the real workerPool (Start, Serve, workerFunc, release, clean, Stop) on the engine's cooperative scheduler with virtual time: 3/4 connections, MaxWorkersCount ∈ {1,2}, schedule choice points in the worker function and after each Serve, each handler returning nil or errHijacked; served exactly once iff accepted, then closed exactly once or reported hijacked and left open (per connection), bound respected, idle retirement, nothing left after Stop",
+         'bounded schedules at blocking points/Gosched/explicit choice points; instruction-level preemption outside', "§0 C13"),
+ "C14": ('ConnState sequences of the real ServeConn loop for 0..2/0..3 requests from 5 kinds, delivered one per read or all in one read, the last one possibly malformed or cut off, optional hijack, ReduceMemoryUsage on/off: regular-language check and Active-after-a-byte',
+         'bounds: finite connection grammar; two known findings excluded (ServeConn never reports StateNew; first StateActive precedes the first byte)', "§0 C14"),
+ "C17": ('the real ServeConn loop with a hijacking handler (GET, POST with a body, POST with Expect: 100-continue): the response is complete (or absent with HijackSetNoResponse) before the hijack handler runs, the handler reads exactly the ≤3/≤6 arbitrary trailing bytes in order whether they were buffered with the request, arrive later or are split, and the connection is closed after the handler unless KeepHijackedConns',
          "bounds as stated; 'server never touches the connection again' not decided", "§0 C17"),
  "C19": ("the real HostClient.Do/DoTimeout retry loop and transport.RoundTrip against a scripted network: for every fault sequence (write error, EOF, read timeout, oversized response, dial error per dial), method, MaxIdemponentCallAttempts ∈ [-1,3]/[-1,6] (symbolic), RetryIf/RetryIfErr answers and per-attempt time consumption: transmissions ≤ the attempt limit, a non-idempotent request is sent once unless a callback allows more, body streams and oversized responses are never retried, and no transmission starts after the request timeout unless RetryIfErr reset it",
          "bounds as stated; RetryIfErrUpstream, MaxConnWaitTimeout, TLS and real sockets outside", "§0 C19"),
- "C20": ("the real redirect loop with a recording fake client: one redirect hop whose Location carries ≤2 arbitrary host-label bytes plus look-alike suffixes, ports, userinfo and scheme variants (thorough adds all two-hop chains over the fixed suffix grammar): credentials are never sent to a host that is neither a.co nor a dot-suffix subdomain, at most MaxRedirects hops are followed, 303 becomes a body-less GET/HEAD and POST becomes GET on 301/302",
-         "bounds as stated; IPv6/percent-escaped hosts and Client/HostClient wrappers outside", "§0 C20"),
+ "C20": ('the real redirect loop with a recording fake client that also serialises every hop: one redirect hop whose Location carries ≤2 arbitrary host-label bytes plus look-alike suffixes, ports, userinfo and scheme variants (thorough adds two-hop chains), GET or POST with a raw body or form arguments: credentials are never sent to a host that is neither a.co nor a dot-suffix subdomain, at most MaxRedirects hops, 303 becomes a body-less GET/HEAD on the wire, POST becomes GET on 301/302',
+         'bounds as stated; IPv6/percent-escaped hosts and Client/HostClient wrappers outside', "§0 C20"),
  "C21": ("the real Client / HostClient scheme handling on a scripted network with a transparent model of crypto/tls: for every scheme of 4-5 arbitrary letters, a request whose scheme is https only ever travels inside TLS to host:443 with ServerName = its host and never on a raw connection, an http request never travels inside TLS, any other scheme is refused by Client without transmission, a HostClient refuses a scheme that does not match IsTLS (ErrHostClientRedirectToDifferentScheme), also across http↔https redirects",
          "TLS itself is a model (handshake always succeeds, plaintext passed through and tagged); LBClient/PipelineClient outside", "§0 C21"),
  "C23": ("the real FS handler over a recording in-memory fs.FS: for every request target of '/' + ≤2/≤3 arbitrary bytes (through the real URI parser), Root ∈ {r, r/s, empty}, compression on/off and each built-in rewriter with counts 0..2 (arbitrary host bytes for the virtual-host rewriter), every name passed to Open is the root or lexically inside it, NUL paths open nothing (400), and '..' after rewriting opens nothing",
@@ -55,8 +55,8 @@ claimed = {
          "bounds as stated; net/url is the standard library's own code executed symbolically; longer tails outside", "§0 C27"),
  "C28": ("Args as an ordered multimap: every sequence of 3/4 operations (Add/Set/SetNoValue/Del/AddNoValue) with symbolic keys/values vs a slice model through all observers; parse∘serialise and quote∘unquote round trips",
          "key/value lengths ≤1–2 bytes, ≤2 entries for the round trip", "§0 C28"),
- "C29": ("ResponseHeader and RequestHeader: every sequence of 4 (quick) / 5 (thorough) Add/Set/Del operations over mixed-case ordinary names with symbolic values vs an ordered-multimap model (PeekAll order, Peek, Len)",
-         "ordinary names only; special names, normalisation off, CopyTo, write→read-back outside", "§0 C29"),
+ "C29": ('ResponseHeader and RequestHeader: every sequence of 4/5 Add/Set/Del operations over mixed-case ordinary names vs an ordered-multimap model; 2/3 operations mixing special names (Content-Type, Server/Host, User-Agent, Connection incl. close, Content-Encoding) with ordinary ones vs a model with single-valued special names, also after CopyTo and after writing the header and reading it back',
+         'cookies/trailers/Content-Length as operands, normalisation off and longer values outside', "§0 C29"),
  "C30": ("ParseUint accepts exactly the digit strings that fit (all digit strings ≤20/≤24 digits, all byte strings ≤4/≤6), exact value; parseContentLength agrees; AppendUint∘ParseUint for n < 2^14/2^16; hex write/read round trip for every n < 2^60 and rejection of 16+ hex digits",
          "64-bit int only; AppendUint inverse only below 2^appendBits", "§0 C30"),
  "C31": ("IPv4 clauses: ParseIPv4 accepts exactly four dot-separated non-empty decimal fields ≤255 for every byte string of length ≤8/≤10; AppendIPv4→ParseIPv4 round trip with each octet symbolic in turn",
